@@ -36,6 +36,16 @@ package multinode
 //@   // node's own error comes back
 //@   ensures result == nil ==> (nodeKind() == "lighthouse" || nodeKind() == "teku") && strindex(errtext(err), "{") != -1
 //@   ensures result != nil ==> result == err
+//@   // and only when EVERY entry of the node's failure list is a duplicate report: one real failure in the list and
+//@   // the node's error comes back (resp / resp#2: the decoded lighthouse / teku answers)
+//@   loop 1
+//@     invariant 0 <= allowedFailures && allowedFailures <= rangeiter && 0 <= rangeiter && rangeiter <= len(resp.Failures)
+//@     invariant allowedFailures == rangeiter ==> forall k int :: 0 <= k && k < rangeiter ==> resp.Failures[k] != nil && strhasprefix(resp.Failures[k].Message, "Verification: PriorSyncCommitteeMessageKnown")
+//@   loop 2
+//@     invariant 0 <= allowedFailures && allowedFailures <= rangeiter#2 && 0 <= rangeiter#2 && rangeiter#2 <= len(resp#2.Failures)
+//@     invariant allowedFailures == rangeiter#2 ==> forall k int :: 0 <= k && k < rangeiter#2 ==> resp#2.Failures[k] != nil && resp#2.Failures[k].Message == "Ignoring sync committee message as a duplicate was processed during validation"
+//@   ensures result == nil && nodeKind() == "lighthouse" ==> forall k int :: 0 <= k && k < len(resp.Failures) ==> resp.Failures[k] != nil && strhasprefix(resp.Failures[k].Message, "Verification: PriorSyncCommitteeMessageKnown")
+//@   ensures result == nil && nodeKind() == "teku" ==> forall k int :: 0 <= k && k < len(resp#2.Failures) ==> resp#2.Failures[k] != nil && resp#2.Failures[k].Message == "Ignoring sync committee message as a duplicate was processed during validation"
 //@
 //@ // ---- C08: a submission is offered in full to every configured node and succeeds iff one accepts ----
 //@ // what the completion flag showed when it was read after the wait
@@ -292,3 +302,8 @@ package multinode
 //@   requires s != nil && !isnil(err)
 //@   assumes call serviceInfo#1 (kind, addr): kind == nodeKind()
 //@   ensures result == nil ==> nodeKind() == "lighthouse" && strindex(errtext(err), "{") != -1
+//@   // and only when EVERY entry of the node's failure list reports an already known aggregator
+//@   loop 1
+//@     invariant 0 <= allowedFailures && allowedFailures <= rangeiter && 0 <= rangeiter && rangeiter <= len(resp.Failures)
+//@     invariant allowedFailures == rangeiter ==> forall k int :: 0 <= k && k < rangeiter ==> resp.Failures[k] != nil && strhasprefix(resp.Failures[k].Message, "Verification: AggregatorAlreadyKnown")
+//@   ensures result == nil ==> forall k int :: 0 <= k && k < len(resp.Failures) ==> resp.Failures[k] != nil && strhasprefix(resp.Failures[k].Message, "Verification: AggregatorAlreadyKnown")
